@@ -60,7 +60,8 @@ def find(air, sender, pdu):
 
 
 def activation(sx, tech, brs_rng, lri_rng, lrt_rng, rwt_rng, miu_rng, lto_rng,
-               lsc, services, did=None, nad=None, acm=False, agf=True, acm_device=False):
+               lsc, services, did=None, nad=None, acm=False, agf=True, acm_device=False,
+               snl_traffic=False):
     """*_rng = [lo, hi] of the symbolic option (miu_rng/lto_rng: [[lo, hi] of
     the initiator device, [lo, hi] of the target device]); lsc = [initiator,
     target]; services = [initiator, target] lists of well-known service
@@ -254,7 +255,24 @@ def activation(sx, tech, brs_rng, lri_rng, lrt_rng, rwt_rng, miu_rng, lto_rng,
         ctl.bind(sock, 40)
         for n in (50, 30, 37):
             ctl.sendto(sock, bytes(bytearray(n)), 41, LLCP_DONTWAIT)
-        for k in range(4):
+        if not snl_traffic:
+            snl_n = 0
+        else:
+            snl_n = 20
+            sx.reach("llcp_traffic_with_service_discovery")
+        # ... and service discovery traffic in both directions at once: the
+        # peer has asked for twenty names (one SNL PDU with twenty SDREQs is
+        # dispatched), three applications of this device wait in resolve()
+        # for long names (the entries resolve() queues before it sleeps)
+        snl = pdu.ServiceNameLookup(1, 1)
+        snl.sdreq = [(t, b"urn:nfc:sn:q%d" % t) for t in range(snl_n)]
+        if snl_n:
+            ctl.dispatch(pdu.decode(pdu.encode(snl)))
+        sda = ctl.sap[1]
+        for t in (200, 201, 202)[:snl_n]:
+            sda.tids.remove(t)
+            sda.sdreq.append((t, b"urn:nfc:sn:" + b"x" * (60 + t - 200)))
+        for k in range(8):
             frame = ctl.collect()
             if frame is None:
                 break
@@ -280,6 +298,7 @@ MIU_ALL, LTO_ALL = [128, 2175], [10, 2550]
 
 
 import nfc.llcp as _llcp
+import nfc.llcp.pdu as pdu
 LLCP_LDL, LLCP_DONTWAIT = _llcp.LOGICAL_DATA_LINK, _llcp.MSG_DONTWAIT
 
 
@@ -453,7 +472,10 @@ def partitions(tier):
                         lri_rng=[0, 3], lrt_rng=[0, 3],
                         rwt_rng=[0, 15] if not quick else [6, 10],
                         lsc=[k % 4, (k // 4) % 4], services=svc[k % 4],
-                        acm=bool(k & 2), agf=bool(k & 4))
+                        acm=bool(k & 2), agf=bool(k & 4),
+                        # (both MIUs are the default 128 in partitions 0..3:
+                        # service discovery traffic on top of the datagrams)
+                        snl_traffic=(mi == [128, 128] and mt == [128, 128]))
                     k += 1
     # ---- active communication mode: the initiator's device can sense for an
     # active target, the ATR_REQ opens the activation at 106 kbps
@@ -472,7 +494,7 @@ def partitions(tier):
     return parts
 
 
-MUST_REACH = ["activated:active-mode", "activated:106A", "activated:212F", "psl", "exchanged", "did", "nad", "passthrough", "llcp_traffic",
+MUST_REACH = ["activated:active-mode", "activated:106A", "activated:212F", "psl", "exchanged", "did", "nad", "passthrough", "llcp_traffic", "llcp_traffic_with_service_discovery",
               "idle:initiator", "idle:target"]
 BOUNDS = {
     "quick": "two real LogicalLinkController.activate() stacks (Initiator and "
